@@ -70,3 +70,16 @@ def objects_in(obj):
                 stack.extend(x)
         out.append(x)
     return out
+
+
+import re as _re
+_BREAKS = _re.compile("\r\n|[\r\n\x85  ]")
+
+
+def has_foldable_more_indented_line(text):
+    """A line that starts with a space and contains a later space followed by a non-space: the shape on
+    which libyaml's folded-scalar writer folds although the line is more-indented (known finding)."""
+    for l in _BREAKS.split(text):
+        if l.startswith(" ") and _re.search(r"\S +\S", l):
+            return True
+    return False
